@@ -2,6 +2,7 @@ import FrappyProofs.Lemmas.DatatypesSound
 import FrappyProofs.Lemmas.DatatypesTotal
 import FrappyProofs.Lemmas.DatatypesMonitor
 import FrappyProofs.Lemmas.DatatypesDenotesM
+import FrappyProofs.Lemmas.DatatypesImport
 import FrappyProofs.Lemmas.RatLawful
 import FrappyModel.Generated.C01
 /-
@@ -42,25 +43,22 @@ theorem validate_denotes (dt : DType F) (hwf : dt.WF) (v : PVal F) (prev : Optio
     Denotes dt prev v r :=
   conv_denotes dt v prev r hwf hprev h
 
-/-- full statement for the wire path: the JSON value stands for a Python value `v` (`WireDenotes`:
-no string taken as a number, no fraction truncated, strict base64, equal lengths) and the accepted
-value denotes `v` -/
-def accept_denotes_statement : Prop :=
-  ∀ (F : Type) [FloatOps F] [LawfulFloatOps F] (dt : DType F), dt.WF → ∀ (j : JVal F) (prev : Option (PVal F)),
-    (∀ p, prev = some p → InSet dt p) → ∀ r, acceptWire dt j prev = .ok r →
-    ∃ v, WireDenotes dt j v ∧ Denotes dt prev v r
+/-- `import_value` produces the Python value the JSON value stands for: numbers for numbers (a scaled
+value travels as its integer grid index: no string taken as a number, no fraction truncated), strict
+base64 for blobs, lists of equal length for arrays and tuples (no string taken as a list of characters),
+objects key-wise for structs -/
+theorem import_denotes (dt : DType F) (j : JVal F) (v : PVal F) (h : importValue dt j = .ok v) :
+    WireDenotes dt j v := importValue_denotes dt j v h
 
-/-- proved part: the accepted value denotes the value `import_value` produced.  Missing: the theorem
-`importValue dt j = .ok v → WireDenotes dt j v` (the monitor `wireDenotesB` judges exactly this on
-every outcome of the real `import_value`; the proof is not written yet). -/
-theorem accept_denotes_partial (dt : DType F) (hwf : dt.WF) (j : JVal F) (prev : Option (PVal F))
+/-- the wire path: the JSON value stands for a Python value `v`, and the accepted value denotes `v` -/
+theorem accept_denotes (dt : DType F) (hwf : dt.WF) (j : JVal F) (prev : Option (PVal F))
     (hprev : ∀ p, prev = some p → InSet dt p) (r : PVal F) (h : acceptWire dt j prev = .ok r) :
-    ∃ v, importValue dt j = .ok v ∧ Denotes dt prev v r := by
+    ∃ v, WireDenotes dt j v ∧ Denotes dt prev v r := by
   unfold acceptWire at h
   split at h
   · cases h
   · rename_i v hv
-    exact ⟨v, hv, validate_denotes dt hwf v prev hprev r h⟩
+    exact ⟨v, import_denotes dt j v hv, validate_denotes dt hwf v prev hprev r h⟩
 
 /-! ## validating a validated value returns it unchanged (statements; not proved yet) -/
 
@@ -138,11 +136,11 @@ theorem exTree_wf : exTree.WF := by
 
 theorem exPrev_inSet : InSet exTree exPrev := inSetB_sound _ _ (by decide +kernel)
 
-/-- the hypotheses of `accept_sound`, `accept_denotes_partial`, `accept_total` are met by a concrete
+/-- the hypotheses of `accept_sound`, `accept_denotes`, `accept_total` are met by a concrete
 request on a nested tree with a previous value; the model accepts it, merges member `b` from the
 previous value, and the result is the expected one -/
 example : ∃ r, acceptWire exTree exWire (some exPrev) = .ok r ∧ InSet exTree r ∧
-    (∃ v, importValue exTree exWire = .ok v ∧ Denotes exTree (some exPrev) v r) ∧
+    (∃ v, WireDenotes exTree exWire v ∧ Denotes exTree (some exPrev) v r) ∧
     PVal.same r exResult = true := by
   have hb : (match acceptWire exTree exWire (some exPrev) with
       | .ok r => PVal.same r exResult
@@ -153,7 +151,7 @@ example : ∃ r, acceptWire exTree exWire (some exPrev) = .ok r ∧ InSet exTree
   | error e => rw [h] at hb; cases hb
   | ok r =>
     rw [h] at hb
-    exact ⟨r, rfl, accept_sound exTree exTree_wf _ _ hp r h, accept_denotes_partial exTree exTree_wf _ _ hp r h, hb⟩
+    exact ⟨r, rfl, accept_sound exTree exTree_wf _ _ hp r h, accept_denotes exTree exTree_wf _ _ hp r h, hb⟩
 
 /-- a rejected request: a JSON string offered to the scaled elements is a bad-value error, not a number -/
 example : (match acceptWire exTree (.obj [("a", .arr [.str "5"]), ("c", .int 1)]) none with
